@@ -116,11 +116,20 @@ def end_guards(body):
     or a call of a helper that returns exactly that comparison of its arguments."""
     out = []
     facts = body.facts
+    def is_used(o):
+        pb = op_place(o)
+        return bool(pb and pb["p"] and isinstance(pb["p"][-1], dict) and pb["p"][-1].get("n") == "used")
     for T in all_tests(body):
-        if T.kind == "cmp" and T.op == "Ge":
-            pb = op_place(T.b)
-            if pb and pb["p"] and isinstance(pb["p"][-1], dict) and pb["p"][-1].get("n") == "used":
+        if T.kind == "cmp":
+            # X >= used (true) | X < used (false) | used <= X (true) | used > X (false)
+            if T.op == "Ge" and is_used(T.b):
                 out.append((T.true_edge, T.a))
+            elif T.op == "Lt" and is_used(T.b):
+                out.append((T.false_edge, T.a))
+            elif T.op == "Le" and is_used(T.a):
+                out.append((T.true_edge, T.b))
+            elif T.op == "Gt" and is_used(T.a):
+                out.append((T.false_edge, T.b))
         elif T.kind == "call" and T.site is not None:
             m = _exact_end_helper(facts, T.site.node)
             if m is not None:
